@@ -67,7 +67,14 @@ def child_main(req, wfd):
             # re-pack the source between two calls
             results = []
             for step in req["seq"]:
-                if "repack" in step:
+                if "stat" in step:
+                    # harness-side observation between two calls: identity and modification time of every file of a finished copy
+                    state["armed"] = False
+                    base = Path(step["stat"])
+                    results.append({"stat": {str(q.relative_to(base)): [q.lstat().st_ino, q.lstat().st_mtime_ns, q.lstat().st_size]
+                                             for q in sorted(base.rglob("*")) if not q.is_dir()}})
+                    state["armed"] = True
+                elif "repack" in step:
                     state["armed"] = False
                     _repack(Path(step["repack"]["src"]), step["repack"]["to"])
                     state["armed"] = True
